@@ -6,6 +6,7 @@ import GeoModel.Prepared
 import GeoModel.GeomGraph
 import GeoProofs.Props.C11
 import GeoProofs.Lemmas.C17Graph
+import GeoProofs.Lemmas.TRAN2Graph
 import GeoProofs.Lemmas.C05Winding
 
 namespace Geo.Proofs.C17
@@ -301,5 +302,56 @@ theorem ring_node_reverse (idx : Nat) (ring : List Pt) (l r : Pos) (G : GG.Graph
       subst this; rfl
 
 end Concrete
+
+
+/-! ### tie to the source -/
+
+/-- [E2] (translator tie) `TopologyPosition` (topology_position.rs: the four constructors, `get`, `is_empty`, `is_any_empty`,
+`is_area`, `is_line`, `flip`, `set_all_positions`, `set_all_positions_if_empty`, `set_position`, `set_on_position`) and
+`IntersectionMatrix::{set, set_at_least, set_at_least_if_in_both}` of the model are the terms `translator/rs2lean.py`
+regenerates on every run from the Rust bodies (`GeoModel/Gen/GraphGen.lean`; `enum Direction` from its declaration): which
+field each `(direction, shape)` arm reads or writes, what `flip` swaps, which positions the `if_empty` variant leaves alone, the
+`panic!` arms for a direction a line position does not have (model: `none` / unchanged), the strict `<` on dimensions in
+`set_at_least` and the both-`Some` test. A changed arm, field or comparison changes the regenerated definition and this
+theorem stops checking. -/
+theorem topologyPosition_eq_source :
+    ((∀ o l r : Pos, Gen.tpArea o l r = GG.TopoPos.area (some o) (some l) (some r)) ∧ Gen.tpEmptyArea = GG.TopoPos.emptyArea ∧
+      (∀ o : Pos, Gen.tpLineOrPoint o = GG.TopoPos.lineOrPoint (some o)) ∧ Gen.tpEmptyLineOrPoint = GG.TopoPos.emptyLine) ∧
+    (∀ t : GG.TopoPos, Gen.tpGet t .on = t.on ∧ Gen.tpGet t .left = t.left ∧ Gen.tpGet t .right = t.right) ∧
+    (∀ t : GG.TopoPos, Gen.tpIsEmpty t = t.isEmpty ∧ Gen.tpIsAnyEmpty t = t.isAnyEmpty ∧ Gen.tpIsArea t = t.isArea ∧
+      Gen.tpIsLine t = t.isLine ∧ Gen.tpFlip t = t.flip) ∧
+    (∀ (t : GG.TopoPos) (p : Pos), Gen.tpSetAllPositions t p = t.setAll p ∧ Gen.tpSetAllPositionsIfEmpty t p = t.setAllIfEmpty p ∧
+      Gen.tpSetOnPosition t p = t.setOn p ∧ Gen.tpSetPosition t .on p = t.setOn p ∧ Gen.tpSetPosition t .left p = t.setLeft p ∧
+      Gen.tpSetPosition t .right p = t.setRight p) ∧
+    (∀ (m : IM) (a b : Pos) (d : Dim), Gen.imSet m a b d = m.set a b d ∧ Gen.imSetAtLeast m a b d = m.setAtLeast a b d) ∧
+    (∀ (m : IM) (pa pb : Option Pos) (d : Dim), Gen.imSetAtLeastIfInBoth m pa pb d = RI.setAtLeastIfBoth m pa pb d) :=
+  ⟨Geo.Proofs.TRAN2Graph.tpCtors_eq, Geo.Proofs.TRAN2Graph.tpGet_eq,
+   fun t => ⟨Geo.Proofs.TRAN2Graph.tpIsEmpty_eq t, Geo.Proofs.TRAN2Graph.tpIsAnyEmpty_eq t, Geo.Proofs.TRAN2Graph.tpIsArea_eq t,
+     Geo.Proofs.TRAN2Graph.tpIsLine_eq t, Geo.Proofs.TRAN2Graph.tpFlip_eq t⟩,
+   fun t p => ⟨Geo.Proofs.TRAN2Graph.tpSetAll_eq t p, Geo.Proofs.TRAN2Graph.tpSetAllIfEmpty_eq t p, Geo.Proofs.TRAN2Graph.tpSetOn_eq t p,
+     (Geo.Proofs.TRAN2Graph.tpSetPosition_eq t p).1, (Geo.Proofs.TRAN2Graph.tpSetPosition_eq t p).2.1,
+     (Geo.Proofs.TRAN2Graph.tpSetPosition_eq t p).2.2⟩,
+   fun m a b d => ⟨Geo.Proofs.TRAN2Graph.imSet_eq m a b d, Geo.Proofs.TRAN2Graph.imSetAtLeast_eq m a b d⟩,
+   Geo.Proofs.TRAN2Graph.imSetAtLeastIfInBoth_eq⟩
+
+/-- [E2] (translator tie) `Label` (label.rs: `swap_args`, `empty_line_or_point`, `empty_area`, `new`, `flip`, `position`,
+`on_position`, `set_position`, `set_on_position`, `set_all_positions`, `set_all_positions_if_empty`, `geometry_count`,
+`is_empty`, `is_any_empty`, `is_area`, `is_geom_area`, `is_line`) of the model is the term regenerated from the Rust bodies on
+every run (`GeoModel/Gen/GraphGen.lean`), the two-element array `geometry_topologies` being the fields `a`, `b` read and
+written through `Label.get` / `Label.set`: which slot each method touches, which `TopologyPosition` method it forwards to,
+the shape `new` picks for the other slot, what `swap_args` exchanges and what `geometry_count` counts. -/
+theorem label_eq_source (l : GG.Label) (idx : Nat) (p : Pos) (t : GG.TopoPos) :
+    Gen.labelSwapArgs l = l.swap ∧ Gen.labelEmptyLineOrPoint = GG.Label.emptyLine ∧ Gen.labelEmptyArea = GG.Label.emptyArea ∧
+    Gen.labelNew idx t = GG.Label.new idx t ∧ Gen.labelFlip l = l.flip ∧
+    Gen.labelPosition l idx .on = l.onPos idx ∧ Gen.labelPosition l idx .left = l.leftPos idx ∧
+    Gen.labelPosition l idx .right = l.rightPos idx ∧ Gen.labelOnPosition l idx = l.onPos idx ∧
+    Gen.labelSetPosition l idx .on p = l.setOn idx p ∧ Gen.labelSetPosition l idx .left p = l.setLeft idx p ∧
+    Gen.labelSetPosition l idx .right p = l.setRight idx p ∧ Gen.labelSetOnPosition l idx p = l.setOn idx p ∧
+    Gen.labelSetAllPositions l idx p = l.setAll idx p ∧ Gen.labelSetAllPositionsIfEmpty l idx p = l.setAllIfEmpty idx p ∧
+    Gen.labelGeometryCount l = l.geometryCount ∧ Gen.labelIsEmpty l idx = l.isEmptyAt idx ∧
+    Gen.labelIsAnyEmpty l idx = l.isAnyEmptyAt idx ∧ Gen.labelIsArea l = l.isArea ∧ Gen.labelIsGeomArea l idx = l.isGeomArea idx ∧
+    Gen.labelIsLine l idx = l.isLineAt idx := by
+  have h := Geo.Proofs.TRAN2Graph.label_eq l idx p
+  exact ⟨h.1, h.2.1, h.2.2.1, Geo.Proofs.TRAN2Graph.labelNew_eq idx t, h.2.2.2⟩
 
 end Geo.Proofs.C17
